@@ -5458,34 +5458,16 @@ impl BytecodeVM {
             // ═══════════════════════════════════════════════════════════════════════════
             Op::TemplateConcat { dst, start, count } => {
                 let mut result = String::new();
-                let to_string_key = PropertyKey::String(interp.intern("toString"));
                 for i in 0..count {
-                    let val = self.get_reg(start + i);
-                    // For objects, call toString method; for primitives, use to_js_string
-                    let str_val = if let JsValue::Object(obj) = &val {
-                        // Check if object has a custom toString method
-                        if let Some(JsValue::Object(func_obj)) =
-                            obj.borrow().get_property(&to_string_key)
-                        {
-                            if func_obj.borrow().is_callable() {
-                                // Call toString()
-                                match interp.call_function(
-                                    JsValue::Object(func_obj.clone()),
-                                    val.clone(),
-                                    &[],
-                                ) {
-                                    Ok(Guarded { value, guard: _ }) => interp.to_js_string(&value),
-                                    Err(_) => interp.to_js_string(val),
-                                }
-                            } else {
-                                interp.to_js_string(val)
-                            }
-                        } else {
-                            interp.to_js_string(val)
-                        }
-                    } else {
-                        interp.to_js_string(val)
-                    };
+                    let val = self.get_reg(start + i).clone();
+                    // ToString of each part: objects through Symbol.toPrimitive / toString /
+                    // valueOf (whose exceptions propagate), symbols cannot be converted
+                    if matches!(val, JsValue::Symbol(_)) {
+                        return Err(JsError::type_error(
+                            "Cannot convert a Symbol value to a string",
+                        ));
+                    }
+                    let str_val = interp.coerce_to_string(&val)?;
                     result.push_str(str_val.as_str());
                 }
                 self.set_reg(dst, JsValue::String(JsString::from(result)));
